@@ -137,6 +137,38 @@ def c05_base():
     return base
 
 
+def container_element_edits(base):
+    """Primitive changes of the element type of vectors, streams and map values (record field, step, stream item): the
+    documentation lists 'changing between primitive types' without restricting where the primitive sits. Kept only if yardl
+    accepts them (run_edit reports a rejected history as such)."""
+    from am import P, Vec, Map, Stream
+    out = []
+
+    def clone():
+        return copy.deepcopy(base)
+    for nt in ("int64", "float64", "int16", "string"):
+        p = clone()
+        pr = c06.find(p, "Proto")
+        pr.steps = [(n, Vec(P(nt)) if n == "vec" else t) for n, t in pr.steps]
+        out.append(("container-element-primitive/step-vec:int32->%s" % nt, "partial", p))
+    for nt in ("float64", "int32"):
+        p = clone()
+        r = c06.find(p, "Sample")
+        r.fields = [(n, Vec(P(nt)) if n == "values" else t) for n, t in r.fields]
+        out.append(("container-element-primitive/Sample.values:float32->%s" % nt, "partial", p))
+    for nt in ("int64", "int16", "float32"):
+        p = clone()
+        pr = c06.find(p, "Proto2")
+        pr.steps = [(n, Stream(P(nt)) if n == "b" else t) for n, t in pr.steps]
+        out.append(("container-element-primitive/stream-b:int32->%s" % nt, "partial", p))
+    for nt in ("int64", "uint8"):
+        p = clone()
+        pr = c06.find(p, "Proto")
+        pr.steps = [(n, Map(P("string"), P(nt)) if n == "m" else t) for n, t in pr.steps]
+        out.append(("container-element-primitive/step-map-value:int32->%s" % nt, "partial", p))
+    return out
+
+
 def run_edit(job):
     """job: (label, cls, new pkg, [(version label, old pkg, old Prepared)]) ; returns list of records for the main thread."""
     label, cls, newpkg, olds, k, tag = job
@@ -217,13 +249,14 @@ def main(tier):
     base = c05_base()
     k = 1
     all_edits = [(lab, cls, p) for lab, cls, p in c06.edits(base) if cls in ("compatible", "partial", "silent")]
+    all_edits += container_element_edits(base)
     if quick:
         seen, sel = set(), []
         for lab, cls, p in all_edits:
             kind = lab.split("/")[0]
             if kind in ("add-comment", "reorder-definitions", "add-unused-types", "add-unrelated-protocol"):
                 continue
-            if kind not in seen or kind in ("change-primitive", "change-primitive-step"):
+            if kind not in seen or kind in ("change-primitive", "change-primitive-step", "remove-field", "container-element-primitive"):
                 seen.add(kind)
                 sel.append((lab, cls, p))
         all_edits = sel
